@@ -121,7 +121,9 @@ func stacklessWriteZstd(ctx any) {
 	stacklessWriteZstdOnce.Do(func() {
 		stacklessWriteZstdFunc = stackless.NewFunc(nonblockingWriteZstd)
 	})
-	stacklessWriteZstdFunc(ctx)
+	if !stacklessWriteZstdFunc(ctx) {
+		nonblockingWriteZstd(ctx)
+	}
 }
 
 func nonblockingWriteZstd(ctxv any) {
